@@ -173,7 +173,7 @@ def run(res, replay=None):
                 a = mpmath.mpf(m['alpha'])
                 mm = 1 + 1 / (2 ** (a - 1) * (a - 1))
                 ref = mm ** a * mpmath.mpf(N) ** (a - 1) / a / mpmath.beta(2 - a, a)
-                if abs(ref - iv) > 1e-11 * abs(ref):
+                if C.gt(abs(ref - iv), 1e-11 * abs(ref)):
                     res.violation('Beta time scale differs from the documented msprime scaling',
                                   {'model': m, 'N': N, 'expected': float(ref), 'observed': iv})
             elif not C.close(mv, iv, rel=Fr(1, 10 ** 14)):
@@ -186,7 +186,7 @@ def run(res, replay=None):
                 res.violation('negative merger rate', {'model': m, 'b': b, 'k': k, 'observed': v})
             if (b + 1, k + 1) in lam:
                 rhs = lam[(b + 1, k)] + lam[(b + 1, k + 1)]
-                if abs(v - rhs) > 1e-9 * max(abs(v), abs(rhs), 1e-300):
+                if C.gt(abs(v - rhs), 1e-9 * max(abs(v), abs(rhs), 1e-300)):
                     res.violation('rates are not sampling consistent',
                                   {'model': m, 'b': b, 'k': k, 'lambda_b_k': v, 'sum_b1': rhs})
         res.stream('rates', models=1, bk=len(c['bk']), s12=len(c['s12']), block_vectors=len(c['blocks']))
@@ -200,7 +200,7 @@ def run(res, replay=None):
     for j in (0, 1):
         for (b, k), v, kv in zip(bk, lim[j]['bk'], lim[2]['bk']):
             res.count(('limit', j, b, k))
-            if abs(v - kv) > 1e-6 * max(1.0, kv) * b:
+            if C.gt(abs(v - kv), 1e-6 * max(1.0, kv) * b):
                 res.violation('model does not reduce to Kingman in the limit',
                               {'model': lim_cases[j]['model'], 'b': b, 'k': k, 'observed': v, 'kingman': kv})
     res.extra['input_distribution'] = {'models': [m['kind'] for m in models],
